@@ -1,7 +1,7 @@
 (** C11 (router part) — no sequence of frames of any kind, from requestors or repliers, in any
     schedule, makes a topic router panic; and no socket the request/reply router took from its
     registration channel is dropped on the floor: it waits in the queue or was given a role. *)
-Require Import Selium.Base Selium.PubSub Selium.PubSubSpec Selium.P_PubSub Selium.ReqRep Selium.ReqRepSpec Selium.P_ReqRep Selium.P_ReqRepOrder Selium.P_ReqRepReg.
+Require Import Selium.Base Selium.PubSub Selium.PubSubSpec Selium.P_PubSub Selium.ReqRep Selium.ReqRepSpec Selium.P_ReqRep Selium.P_ReqRepOrder Selium.P_ReqRepReg Selium.P_PubSubReg.
 Open Scope N_scope.
 
 Theorem c11_reqrep_router_total : forall tr s, rrun rinit tr = Some s -> rpanicked s = false.
@@ -31,3 +31,11 @@ Theorem c11_reqrep_every_queued_socket_placed : forall tr s, rrun rinit tr = Som
     \/ In (rlabel_of q) (h_rejected (rgh s)) \/ In (rlabel_of q) (map snd (h_keys (rgh s))).
 Proof. exact rr_every_queued_socket_placed. Qed.
 Print Assumptions c11_reqrep_every_queued_socket_placed.
+
+(** the pub/sub router drops no subscriber registration either: every subscriber socket it took
+    from its registration channel is still waiting in its queue or was adopted into the fan-out
+    (from where c01 owes it every later message) *)
+Theorem c11_pubsub_subscriber_registration_never_dropped : forall tr s, run init tr = Some s ->
+  forall k, In (QSink k) (g_used (gh s)) -> In (QSink k) (queue s) \/ In k (map fst (g_adopt (gh s))).
+Proof. exact ps_subscriber_registration_never_dropped. Qed.
+Print Assumptions c11_pubsub_subscriber_registration_never_dropped.
